@@ -63,8 +63,8 @@ Lemma tie_hlc_now s pt :
   /\ ts_abs (snd r) = c_stamp hlc (HybridLogicalClock__node_id s) (hlc_abs (fst r))
   /\ hlc_wf (fst r) /\ HybridLogicalClock__node_id (fst r) = HybridLogicalClock__node_id s.
 Proof.
-  unfold HybridLogicalClock_now, hlc_abs, hlc_wf, ts_abs; cbn. unfold hlc_now.
-  destruct (pt >? HLCTimestamp_physical_ns (HybridLogicalClock__last s)); cbn; repeat split; reflexivity.
+  (* shape-independent: case split on every test, then computation *)
+  destruct s as [n [p l nn]]. unfold HybridLogicalClock_now, hlc_abs, hlc_wf, ts_abs, hlc_now. tie_auto.
 Qed.
 
 Lemma tie_hlc_send s pt : HybridLogicalClock_send s pt = HybridLogicalClock_now s pt.
@@ -75,12 +75,8 @@ Lemma tie_hlc_receive s r pt :
   hlc_abs s' = c_recv hlc (HybridLogicalClock__node_id s) pt (hlc_abs s) (ts_abs r)
   /\ hlc_wf s' /\ HybridLogicalClock__node_id s' = HybridLogicalClock__node_id s.
 Proof.
-  unfold HybridLogicalClock_receive, hlc_abs, hlc_wf, ts_abs; cbn. unfold hlc_recv.
-  set (lp := HLCTimestamp_physical_ns (HybridLogicalClock__last s)).
-  set (rp := HLCTimestamp_physical_ns r).
-  destruct ((Z.max (Z.max pt lp) rp =? lp) && (lp =? rp)); cbn; [repeat split; reflexivity|].
-  destruct (Z.max (Z.max pt lp) rp =? lp); cbn; [repeat split; reflexivity|].
-  destruct (Z.max (Z.max pt lp) rp =? rp); cbn; repeat split; reflexivity.
+  destruct s as [n [p l nn]], r as [rp rl rn].
+  unfold HybridLogicalClock_receive, hlc_abs, hlc_wf, ts_abs, hlc_recv. tie_auto.
 Qed.
 
 (* ------------------------------------------------------------------ *)
